@@ -412,7 +412,8 @@ def run(ctx):
         out = add(case)
         if i < 3 and not out["raised"]:
             ctx.samples.append({"dims": [{"arr": s["arr"], "common": s["common"]} for s in case["dims"]], "shape": case["shape"],
-                                "format": case["format"], "result": numpy.asarray(out["vals"]).tolist()})
+                                "format": case["format"],
+                                "result": numpy.asarray(out["vals"]).tolist() if numpy.asarray(out["vals"]).size <= 300 else "(%d cells)" % numpy.asarray(out["vals"]).size})
     n_exh = 0
     if thorough:
         for case in exhaustive_cases():
